@@ -63,10 +63,12 @@ class MatrixGenerator:
 
     def apply(self, state: np.ndarray) -> np.ndarray:
         """Multiplies (from left) this matrix by a n*m matrix."""
-        ans = self.matrix @ state
         if self.modulo > 0:
-            ans %= self.modulo
-        return ans
+            # Reduce every product before summing: sums of n>=3 products below 2^62 overflow int64.
+            state = np.asarray(state, dtype=np.int64)
+            prod = (self.matrix.reshape(self.matrix.shape + (1,) * (state.ndim - 1)) * state[np.newaxis]) % self.modulo
+            return prod.sum(axis=1) % self.modulo
+        return self.matrix @ state
 
     def apply_batch_torch(self, states: torch.Tensor) -> torch.Tensor:
         """Multiplies (from left) this matrix by a batch of n*m torch Tensors."""
@@ -74,7 +76,11 @@ class MatrixGenerator:
         assert states.shape[1] == self.n
         mx = torch.tensor(self.matrix, dtype=torch.int64, device=states.device)
         mx = mx.unsqueeze(0).unsqueeze(-1)
-        ans = (mx * states.unsqueeze(1)).sum(dim=2)
+        prod = mx * states.unsqueeze(1)
+        if self.modulo > 0:
+            # Reduce every product before summing: sums of n>=3 products below 2^62 overflow int64.
+            prod %= self.modulo
+        ans = prod.sum(dim=2)
         if self.modulo > 0:
             ans %= self.modulo
         return ans
